@@ -363,3 +363,410 @@ Proof.
     (* a refused __doChangeCluster leaves the state as it is *)
     rewrite (Href eq_refl). exact Hgs.
 Qed.
+
+(* ------------------------------------------------------------------------------------------ *)
+(* C10_members_follow_log: the follower's append path                                         *)
+
+Lemma skipn_add {A} (a b : nat) (l : list A) : skipn a (skipn b l) = skipn (a + b) l.
+Proof.
+  revert l. induction b as [|b IH]; intros l; [now rewrite Nat.add_0_r|].
+  rewrite Nat.add_succ_r. destruct l as [|x l]; [now rewrite !skipn_nil|]. cbn [skipn]. apply IH.
+Qed.
+
+Lemma ae_split l pidx p0 ptail m :
+  get_entries l (Some pidx) None None = p0 :: ptail ->
+  l = delete_from l (pidx + 1 + N.of_nat m) ++ skipn m ptail.
+Proof.
+  unfold get_entries, delete_from. intros H.
+  destruct (pidx <? first_idx l) eqn:E; [discriminate|]. apply N.ltb_ge in E.
+  destruct (pidx + 1 + N.of_nat m <? first_idx l) eqn:E2; [apply N.ltb_lt in E2; lia|].
+  replace (N.to_nat (pidx + 1 + N.of_nat m - first_idx l))
+    with (m + (1 + N.to_nat (pidx - first_idx l)))%nat by lia.
+  rewrite <- (firstn_skipn (m + (1 + N.to_nat (pidx - first_idx l))) l) at 1.
+  f_equal. rewrite <- skipn_add, <- skipn_add. rewrite H. reflexivity.
+Qed.
+
+Definition truncating (rest add : list entry) : bool :=
+  match rest, add with _ :: _, _ :: _ => true | _, _ => false end.
+
+(* what an accepted append_entries does to the log and to the member set *)
+Lemma ae_regular_membership e from c pidx pterm new s p0 ptail :
+  dyn (cf e) = true ->
+  get_entries (log (nd s)) (Some pidx) None None = p0 :: ptail -> eterm p0 = pterm ->
+  let n := nd s in
+  let m := matched_prefix ptail new in
+  let rest := skipn m ptail in
+  let add := skipn m new in
+  let n' := nd (ae_regular e from c (Some (pidx, pterm)) new s) in
+  log n' = (if truncating rest add then delete_from (log n) (pidx + 1 + N.of_nat m) else log n) ++ add /\
+  others n' = fold_left (step_member (self n)) (mem_ops add)
+                (if truncating rest add
+                 then fold_left (step_member (self n)) (map flip_op (rev (mem_ops rest))) (others n)
+                 else others n) /\
+  self n' = self n.
+Proof.
+  intros Hd Hp Ht. cbv zeta. unfold ae_regular. cbn [option_map fst]. rewrite Hp, Ht, N.eqb_refl. cbn [negb].
+  rewrite Hd.
+  rewrite (fr_ae_commit log), (fr_ae_commit others), (fr_ae_commit self) by frs.
+  rewrite !nd_send_next_idx.
+  set (m := matched_prefix ptail new). set (rest := skipn m ptail). set (add := skipn m new).
+  set (s1 := match rest with [] => s | _ :: _ => _ end).
+  assert (E1 : log (nd s1) = (if truncating rest add then delete_from (log (nd s)) (pidx + 1 + N.of_nat m) else log (nd s)) /\
+               others (nd s1) = (if truncating rest add
+                 then fold_left (step_member (self (nd s))) (map flip_op (rev (mem_ops rest))) (others (nd s))
+                 else others (nd s)) /\
+               self (nd s1) = self (nd s)).
+  { subst s1. destruct rest as [|r0 rest']; [cbn; auto|]. destruct add as [|a0 add']; [cbn; auto|].
+    cbn [truncating]. rewrite nd_upd. cbn [log others self set].
+    destruct (apply_membership_others true (rev (r0 :: rest')) s) as [-> ->].
+    rewrite (fr_apply_membership log) by frs.
+    rewrite map_xorb_true, mem_ops_rev. auto. }
+  clearbody s1. destruct E1 as (E1a & E1b & E1c).
+  destruct (apply_membership_others false add (upd (fun n => n <| log := log n ++ add |>) s1)) as [-> ->].
+  rewrite (fr_apply_membership log) by frs. rewrite nd_upd. cbn [log others self set].
+  rewrite map_xorb_false, E1a, E1b, E1c. auto.
+Qed.
+
+(* C10_members_follow_log (append path) *)
+Theorem members_follow_log_append e from c pidx pterm new s p0 ptail base :
+  dyn (cf e) = true ->
+  get_entries (log (nd s)) (Some pidx) None None = p0 :: ptail -> eterm p0 = pterm ->
+  let n := nd s in
+  let me := self n in
+  let m := matched_prefix ptail new in
+  let rest := skipn m ptail in
+  let add := skipn m new in
+  let kept := delete_from (log n) (pidx + 1 + N.of_nat m) in
+  let n' := nd (ae_regular e from c (Some (pidx, pterm)) new s) in
+  ssorted base ->
+  others n = fold_members base (log n) me ->
+  (truncating rest add = true -> all_undo_ok me (fold_members base kept me) (mem_ops rest) = true) ->
+  log n = kept ++ rest /\
+  log n' = (if truncating rest add then kept else log n) ++ add /\
+  others n' = fold_members base (log n') me.
+Proof.
+  intros Hd Hp Ht. cbv zeta. intros Hsb Hoth Hundo.
+  destruct (ae_regular_membership e from c pidx pterm new s p0 ptail Hd Hp Ht) as (E1 & E2 & E3).
+  cbv zeta in *.
+  pose proof (ae_split (log (nd s)) pidx p0 ptail (matched_prefix ptail new) Hp) as Hsplit.
+  split; [exact Hsplit|]. split; [exact E1|].
+  rewrite E2, E1. destruct (truncating _ _) eqn:Etr.
+  - rewrite fold_members_app. unfold fold_members at 1. f_equal.
+    rewrite Hoth. rewrite Hsplit at 1. rewrite fold_members_app. unfold fold_members at 1.
+    apply undo_exact; [apply ssorted_fold; exact Hsb|]. apply Hundo. reflexivity.
+  - rewrite fold_members_app. unfold fold_members at 1. now rewrite Hoth.
+Qed.
+
+(* without the side condition the undo is not exact: an `add x` that found x already a member
+   is a no-op whose reversal removes x *)
+Definition refute_env : env :=
+  mkEnv (mkConf 10 100 50 300 10 10 true true true 10 10 100 10 false false) 0 30 0 [] 0.
+Definition refute_node : node :=
+  (init_node refute_env (Some 1) [2; 3] 0).
+Definition refute_entry : entry := mkEntry (mkCmd 2 1 3 5 20) 2 1.     (* add 3 at index 2, term 1 *)
+
+Theorem undo_not_exact_refuted :
+  exists (s : S) (es : list entry),
+    ssorted (others (nd s)) /\
+    others (nd (apply_membership true (rev es) (apply_membership false es s))) <> others (nd s).
+Proof.
+  exists (start_S refute_env refute_node), [refute_entry]. split; [cbn; lia|].
+  vm_compute. discriminate.
+Qed.
+
+(* the same on the message level: a follower with members {2,3} accepts `add 3` at index 2 and
+   later has it replaced by a no-op of a newer term; its member set is then {2} although its log
+   holds no membership command at all *)
+Definition refute_msg1 : msg := AE 1 1 (Some (1, 0)) [refute_entry].
+Definition refute_msg2 : msg := AE 2 1 (Some (1, 0)) [mkEntry (noop_cmd 10) 2 2].
+
+Theorem undo_not_exact_refuted_msgs :
+  let n1 := nd (on_message refute_env 2 refute_msg1 refute_node) in
+  let n2 := nd (on_message refute_env 3 refute_msg2 n1) in
+  others refute_node = fold_members [2; 3] (log refute_node) (Some 1) /\
+  others n1 = fold_members [2; 3] (log n1) (Some 1) /\
+  mem_ops (log n2) = [] /\
+  others n2 = [2] /\ others n2 <> fold_members [2; 3] (log n2) (Some 1).
+Proof. vm_compute. repeat split; discriminate. Qed.
+
+(* C10_members_follow_log (leader path): the change is applied when the entry is appended *)
+Corollary members_follow_log_leader e c cbk s a x base :
+  dyn (cf e) = true -> role (nd s) = LEADER -> membership_of c = Some (a, x) ->
+  let n := nd s in
+  let n' := nd (check_one e c cbk s) in
+  others n = fold_members base (log n) (self n) ->
+  others n' = fold_members base (log n') (self n).
+Proof.
+  intros Hd Hr Hm. cbv zeta. intros Hoth.
+  destruct (gate e c cbk s a x Hd Hr Hm) as [(_ & _ & Hl & _ & Ho)|(_ & s0 & Hgs & ->)]; cbv zeta in *.
+  - rewrite Ho, Hl, fold_members_app, <- Hoth. unfold fold_members, mem_ops. cbn. rewrite Hm. reflexivity.
+  - rewrite nd_denied_out. destruct Hgs as [[->|[-> _]] _]; exact Hoth.
+Qed.
+
+(* ------------------------------------------------------------------------------------------ *)
+(* C10_members_follow_log: the apply path (after the D20 repair)                              *)
+
+Lemma do_apply_no_reapply c s :
+  replay_idx (nd s) <= applied (nd s) ->
+  others (nd (fst (do_apply c s))) = others (nd s) /\
+  replay_idx (nd (fst (do_apply c s))) = replay_idx (nd s) /\
+  applied (nd (fst (do_apply c s))) = applied (nd s).
+Proof.
+  intros H. unfold do_apply. destruct (ck c =? 3); [destruct (_ <? _); cbn; auto|].
+  destruct (membership_of c) as [[a x]|].
+  - destruct (applied (nd s) <? replay_idx (nd s)) eqn:E; [apply N.ltb_lt in E; lia|]. cbn. auto.
+  - destruct (ck c =? 0); [destruct (cb c =? 1)|]; cbn; auto.
+Qed.
+
+Lemma apply_one_no_reapply en s :
+  replay_idx (nd s) <= applied (nd s) ->
+  others (nd (fst (apply_one en s))) = others (nd s) /\
+  replay_idx (nd (fst (apply_one en s))) <= applied (nd (fst (apply_one en s))).
+Proof.
+  intros H. unfold apply_one.
+  match goal with |- context [do_apply ?c ?s1] =>
+    destruct (do_apply_no_reapply c s1) as (D1 & D2 & D3); [exact H|] end.
+  destruct (do_apply _ _) as [s3 ar]. cbn [fst] in *. cbn in D1, D2, D3.
+  destruct ar; cbn [fst]; try (split; [exact D1|lia]); rewrite nd_upd; cbn [others replay_idx applied set];
+    rewrite nd_fold_fire; (split; [exact D1|lia]).
+Qed.
+
+Lemma apply_list_no_reapply es s :
+  replay_idx (nd s) <= applied (nd s) ->
+  others (nd (apply_list es s)) = others (nd s) /\
+  replay_idx (nd (apply_list es s)) <= applied (nd (apply_list es s)).
+Proof.
+  revert s. induction es as [|en es IH]; intros s H; cbn [apply_list]; [auto|].
+  destruct (apply_one_no_reapply en s H) as [A1 A2].
+  destruct (apply_one en s) as [s1 go]. cbn [fst] in *.
+  destruct go; [|auto]. destruct (IH s1 A2) as [B1 B2]. rewrite B1. auto.
+Qed.
+
+(* C10_apply_does_not_reapply, handler-local form: a node that is not replaying a journal
+   (replay_idx <= applied) never changes its member set by applying committed entries *)
+Theorem apply_does_not_reapply e s :
+  replay_idx (nd s) <= applied (nd s) ->
+  others (nd (fst (apply_entries e s))) = others (nd s) /\
+  replay_idx (nd (fst (apply_entries e s))) <= applied (nd (fst (apply_entries e s))).
+Proof.
+  intros H. unfold apply_entries. destruct (_ <? _); cbn [fst]; [apply apply_list_no_reapply; exact H|auto].
+Qed.
+
+(* ------------------------------------------------------------------------------------------ *)
+(* C10_removed_cannot_count                                                                   *)
+
+Theorem removed_has_no_state x s :
+  ssorted (others (nd s)) -> asorted (next_idx (nd s)) -> asorted (match_idx (nd s)) ->
+  ssorted (tconn (nd s)) ->
+  snd (do_change_cluster false x false s) = true ->
+  let s' := fst (do_change_cluster false x false s) in
+  smem x (others (nd s')) = false /\
+  aget x (next_idx (nd s')) = None /\ aget x (match_idx (nd s')) = None /\
+  smem x (tconn (nd s')) = false /\
+  outs s' = outs s ++ [TDrop x].
+Proof.
+  intros H1 H2 H3 H4. unfold do_change_cluster. cbn [xorb].
+  destruct (self_is x (nd s)); [discriminate|].
+  destruct (negb (smem x (others (nd s)))); [discriminate|]. intros _. cbn.
+  rewrite !smem_sdel, N.eqb_refl by assumption. cbn.
+  rewrite !aget_adel_same by assumption. auto.
+Qed.
+
+(* the three counting loops only read the slots of members *)
+Definition resp_count (dl : Z) (n : node) : N :=
+  1 + N.of_nat (length (filter (fun x => match aget x (last_resp n) with
+                                         | Some t => (dl <? t)%Z | None => false end) (others n))).
+
+Lemma filter_ext_in' {A} (f g : A -> bool) l : (forall x, In x l -> f x = g x) -> filter f l = filter g l.
+Proof.
+  induction l as [|x l IH]; intros H; cbn; [reflexivity|].
+  rewrite (H x (or_introl eq_refl)), IH; [reflexivity|]. intros y Hy. apply H. now right.
+Qed.
+
+Lemma existsb_ext_in {A} (f g : A -> bool) l : (forall x, In x l -> f x = g x) -> existsb f l = existsb g l.
+Proof.
+  induction l as [|x l IH]; intros H; cbn; [reflexivity|].
+  rewrite (H x (or_introl eq_refl)), IH; [reflexivity|]. intros y Hy. apply H. now right.
+Qed.
+
+Lemma match_count_members ci n1 n2 :
+  others n1 = others n2 ->
+  (forall y, In y (others n1) -> aget y (match_idx n1) = aget y (match_idx n2)) ->
+  match_count ci n1 = match_count ci n2 /\ slot_missing n1 = slot_missing n2.
+Proof.
+  intros Ho Hm. unfold match_count, slot_missing. rewrite <- Ho. split.
+  - do 3 f_equal. apply filter_ext_in'. intros y Hy. now rewrite (Hm y Hy).
+  - apply existsb_ext_in. intros y Hy. now rewrite (Hm y Hy).
+Qed.
+
+Lemma majority_members cnt n1 n2 : others n1 = others n2 -> majority cnt n1 = majority cnt n2.
+Proof. intros H. unfold majority. now rewrite H. Qed.
+
+(* the leader's commit decision depends on match_idx only through the slots of the members *)
+Theorem commit_loop_members f ci nx s1 s2 :
+  others (nd s1) = others (nd s2) -> log (nd s1) = log (nd s2) -> term (nd s1) = term (nd s2) ->
+  (forall y, In y (others (nd s1)) -> aget y (match_idx (nd s1)) = aget y (match_idx (nd s2))) ->
+  snd (commit_loop f ci nx s1) = snd (commit_loop f ci nx s2) /\
+  ((exc (fst (commit_loop f ci nx s1)) = exc s1 /\ exc (fst (commit_loop f ci nx s2)) = exc s2) \/
+   (exc (fst (commit_loop f ci nx s1)) = EXC_KEY /\ exc (fst (commit_loop f ci nx s2)) = EXC_KEY)).
+Proof.
+  intros Ho Hl Ht Hm. revert ci nx. induction f as [|f IH]; intros ci nx; cbn [commit_loop]; [cbn; tauto|].
+  rewrite <- Hl. destruct (ci <? last_idx (log (nd s1))); [|cbn; tauto].
+  fold (slot_missing (nd s1)) (slot_missing (nd s2)).
+  fold (match_count (ci + 1) (nd s1)) (match_count (ci + 1) (nd s2)).
+  destruct (match_count_members (ci + 1) (nd s1) (nd s2) Ho Hm) as [<- <-].
+  rewrite <- (majority_members _ (nd s1) (nd s2) Ho).
+  destruct (slot_missing (nd s1)) eqn:Esm; [cbn; tauto|].
+  destruct (negb _); [cbn; tauto|].
+  rewrite <- Ht. destruct (get_entries _ _ _ _) as [|en r]; [apply IH|].
+  destruct (eterm en =? term (nd s1)); apply IH.
+Qed.
+
+Lemma resp_count_members dl n1 n2 :
+  others n1 = others n2 ->
+  (forall y, In y (others n1) -> aget y (last_resp n1) = aget y (last_resp n2)) ->
+  resp_count dl n1 = resp_count dl n2.
+Proof.
+  intros Ho Hm. unfold resp_count. rewrite <- Ho. do 3 f_equal.
+  apply filter_ext_in'. intros y Hy. now rewrite (Hm y Hy).
+Qed.
+
+Lemma In_smem x l : In x l -> smem x l = true.
+Proof.
+  induction l as [|z l IH]; [contradiction|]. cbn.
+  intros [->|Hin]; [now rewrite N.eqb_refl|]. rewrite (IH Hin). apply orb_true_r.
+Qed.
+
+(* so after a successful rem x nothing the leader counts mentions x: the loops range over
+   [others], x is not in it, and x has no slot left *)
+Theorem removed_cannot_count x s :
+  ssorted (others (nd s)) ->
+  snd (do_change_cluster false x false s) = true ->
+  let n' := nd (fst (do_change_cluster false x false s)) in
+  ~ In x (others n') /\
+  (forall ci (m2 : list (nid * N)),
+     (forall y, y <> x -> aget y m2 = aget y (match_idx n')) ->
+     match_count ci (n' <| match_idx := m2 |>) = match_count ci n' /\
+     slot_missing (n' <| match_idx := m2 |>) = slot_missing n') /\
+  (forall dl (r2 : list (nid * Z)),
+     (forall y, y <> x -> aget y r2 = aget y (last_resp n')) ->
+     resp_count dl (n' <| last_resp := r2 |>) = resp_count dl n') /\
+  (forall cnt, majority cnt n' = (N.of_nat (length (others n')) + 1 <? 2 * cnt)).
+Proof.
+  intros Hs Hok. cbv zeta.
+  set (n' := nd (fst (do_change_cluster false x false s))).
+  assert (Hnin : ~ In x (others n')).
+  { subst n'. revert Hok. unfold do_change_cluster. cbn [xorb].
+    destruct (self_is x (nd s)); [discriminate|].
+    destruct (negb (smem x (others (nd s)))); [discriminate|]. intros _. cbn.
+    intros Hin. apply In_smem in Hin.
+    rewrite smem_sdel, N.eqb_refl in Hin by exact Hs. discriminate. }
+  split; [exact Hnin|]. split; [|split].
+  - intros ci m2 Hm2. apply match_count_members; [reflexivity|].
+    intros y Hy. cbn. apply Hm2. intros ->. contradiction.
+  - intros dl r2 Hr2. apply resp_count_members; [reflexivity|].
+    intros y Hy. cbn. apply Hr2. intros ->. contradiction.
+  - reflexivity.
+Qed.
+
+(* observations on messages from a node that is not (or no longer) a member *)
+
+(* a candidate counts every ResponseVote of its term, whoever sent it *)
+Theorem response_vote_sender_irrelevant e f1 f2 t n :
+  on_message e f1 (ResponseVote t) n = on_message e f2 (ResponseVote t) n.
+Proof. reflexivity. Qed.
+
+(* a success reply of the current term from an id without a match_idx slot raises KeyError *)
+Theorem next_idx_without_slot_raises e from nx r n :
+  role n = LEADER -> aget from (match_idx n) = None ->
+  exc (on_message e from (NextIdx (term n) nx r true) n) = EXC_KEY.
+Proof.
+  intros Hr Hm. unfold on_message. cbn [nd start_S]. rewrite Hr, (N.eqb_refl (term n)).
+  cbn [N.eqb Pos.eqb LEADER andb].
+  assert (E : aget from (match_idx (nd (if r then upd (fun n0 => n0 <| next_idx := aset from nx (next_idx n0) |>)
+                                                   (start_S e n) else start_S e n))) = None)
+    by (destruct r; exact Hm).
+  rewrite E. destruct r; reflexivity.
+Qed.
+
+(* a failure reply from such an id creates next_idx / last_resp slots for it *)
+Theorem next_idx_failure_from_stranger e from nx n :
+  role n = LEADER ->
+  let n' := nd (on_message e from (NextIdx (term n) nx true false) n) in
+  aget from (next_idx n') = Some nx /\ aget from (last_resp n') = Some (t0 e) /\
+  others n' = others n.
+Proof.
+  intros Hr. cbv zeta. unfold on_message. cbn [nd start_S]. rewrite Hr, (N.eqb_refl (term n)).
+  cbn. rewrite !aget_aset, N.eqb_refl. auto.
+Qed.
+
+(* ------------------------------------------------------------------------------------------ *)
+(* C10_single_change_majorities_intersect                                                     *)
+
+Definition is_majority_of (q members : list nid) : Prop :=
+  NoDup q /\ incl q members /\ (length members < 2 * length q)%nat.
+
+Lemma disjoint_incl_length (q1 q2 c : list nid) :
+  NoDup q1 -> NoDup q2 -> incl q1 c -> incl q2 c -> (forall x, In x q1 -> ~ In x q2) ->
+  (length q1 + length q2 <= length c)%nat.
+Proof.
+  intros H1 H2 I1 I2 Hd. rewrite <- app_length. apply NoDup_incl_length.
+  - clear I1 I2. induction q1 as [|a q1 IH]; [exact H2|]. cbn. inversion H1; subst.
+    constructor.
+    + intros Hin. apply in_app_or in Hin. destruct Hin as [Hin|Hin]; [contradiction|].
+      apply (Hd a); [now left|exact Hin].
+    + apply IH; [assumption|]. intros x Hx. apply Hd. now right.
+  - intros x Hx. apply in_app_or in Hx. destruct Hx; auto.
+Qed.
+
+(* B is A with one id added or removed *)
+Definition single_change (A B : list nid) : Prop :=
+  exists x, (~ In x A /\ forall y, In y B <-> y = x \/ In y A) \/
+            (~ In x B /\ forall y, In y A <-> y = x \/ In y B).
+
+Theorem single_change_majorities_intersect A B qa qb :
+  NoDup A -> NoDup B -> single_change A B ->
+  is_majority_of qa A -> is_majority_of qb B ->
+  exists y, In y qa /\ In y qb.
+Proof.
+  assert (Hmain : forall A B qa qb x, NoDup A -> NoDup B -> ~ In x A ->
+            (forall y, In y B <-> y = x \/ In y A) ->
+            is_majority_of qa A -> is_majority_of qb B -> exists y, In y qa /\ In y qb).
+  { intros A0 B0 qa0 qb0 x HA HB Hx HBA (Na & Ia & La) (Nb & Ib & Lb).
+    assert (HlenB : length B0 = Datatypes.S (length A0)).
+    { apply Nat.le_antisymm.
+      - apply (NoDup_incl_length (l' := x :: A0) HB). intros y Hy. apply HBA in Hy. destruct Hy; [left; auto|now right].
+      - apply (NoDup_incl_length (l := x :: A0) (l' := B0)); [constructor; assumption|].
+        intros y [<-|Hy]; apply HBA; auto. }
+    destruct (existsb (fun y => smem y qb0) qa0) eqn:Eex.
+    - apply existsb_exists in Eex. destruct Eex as (y & Hy1 & Hy2). exists y. split; [exact Hy1|].
+      clear - Hy2. induction qb0 as [|z l IH]; [discriminate|]. cbn in Hy2.
+      apply orb_prop in Hy2. destruct Hy2 as [H|H]; [apply N.eqb_eq in H; now left|right; auto].
+    - exfalso.
+      assert (Hd : forall y, In y qa0 -> ~ In y qb0).
+      { intros y Hy Hy2. apply In_smem in Hy2.
+        assert (existsb (fun y => smem y qb0) qa0 = true) by (apply existsb_exists; eauto). congruence. }
+      pose proof (disjoint_incl_length qa0 qb0 B0 Na Nb) as Hlen.
+      assert (Ia' : incl qa0 B0) by (intros y Hy; apply HBA; right; apply Ia; exact Hy).
+      specialize (Hlen Ia' Ib Hd). lia. }
+  intros HA HB (x & [[Hx HBA]|[Hx HAB]]) Ha Hb.
+  - exact (Hmain A B qa qb x HA HB Hx HBA Ha Hb).
+  - destruct (Hmain B A qb qa x HB HA Hx HAB Hb Ha) as (y & H1 & H2). eauto.
+Qed.
+
+(* the model's majority test is exactly "more than half of others + self" *)
+Lemma majority_is_majority cnt n :
+  majority cnt n = true <-> (length (others n) + 1 < 2 * N.to_nat cnt)%nat.
+Proof. unfold majority. rewrite N.ltb_lt. lia. Qed.
+
+(* C03/C04 with dynamic membership (staged: needs Log Matching / Leader Completeness on L1) *)
+Definition C10_safety_under_change_full : Prop :=
+  forall c evs g,
+    dyn c = true -> run_trace c ginit evs = Some g ->
+    (* one leader per term *)
+    (forall x y nx ny, aget x (nodes g) = Some nx -> aget y (nodes g) = Some ny ->
+       role nx = LEADER -> role ny = LEADER -> term nx = term ny -> x = y) /\
+    (* committed prefixes agree *)
+    (forall x y nx ny ex ey, aget x (nodes g) = Some nx -> aget y (nodes g) = Some ny ->
+       In ex (log nx) -> In ey (log ny) -> eidx ex = eidx ey ->
+       eidx ex <= commit nx -> eidx ey <= commit ny -> entry_eqb ex ey = true).
